@@ -27,7 +27,7 @@ claim("C10",
 
 claim("C11",
   "guarded reachability / must-pass path rules over SSA, channel-capacity and select-shape checks",
-  "Decides that every read error leads to closeWith(err) and leaves the loop, that shutdown closes the stream and every registered handler with the error, that the reply handler is registered before the send and removed on send failure, that every queue whose filter can match is buffered (dispatch never blocks), that client.Call waits on error channel, reply queue (closed ⇒ error) and cancel together, and that subscription channels are closed exactly once per goroutine exit. The stream must be closed before the handler mutex is taken (a call registering after the sweep then fails on its send); every handler has a queue of its own (C17.queue-owner, shared). The subscription's handler is removed only by its forwarding goroutine on the abort path; a transport error ends the read loop (C08.error-flow on bus/net, shared).",
+  "Decides that every read error leads to closeWith(err) and leaves the loop, that shutdown closes the stream and every registered handler with the error, that the reply handler is registered before the send and removed on send failure, that every queue whose filter can match is buffered (dispatch never blocks), that client.Call waits on error channel, reply queue (closed ⇒ error) and cancel together, and that subscription channels are closed exactly once per goroutine exit. The stream must be closed before the handler mutex is taken (a call registering after the sweep then fails on its send); every handler has a queue of its own (C17.queue-owner, shared). The subscription's handler is removed only by its forwarding goroutine on the abort path; a transport error ends the read loop (C08.error-flow on bus/net, shared). ReadN does not call Read again after an error that came together with data (C08.readn, shared).",
   "'Bounded time', exactly-once firing under races and every fault position of every I/O call are runtime properties and not decided.",
   "DESIGN.md §3 C11")
 
@@ -57,7 +57,7 @@ claim("C15",
 
 claim("C16",
   "lockset (pairing, guarded-by) + table-agreement within critical sections + guarded reachability over SSA",
-  "Decides that object and mailbox tables change together under the same key in one critical section, that Remove deletes a found entry under the exclusive lock and runs OnTerminate exactly once on it outside the lock, that unknown ids are errors, that Add stores only under an id whose lookup failed, and that OnTerminate tells every remaining subscriber. The identifier under which Add stores is behind a failed lookup of that very identifier (D23, fixed); no blocking channel operation under the service lock (C12.locks, shared). The error of Activate reaches the caller of Add and the object is installed only where it is nil (C16.activation).",
+  "Decides that object and mailbox tables change together under the same key in one critical section, that Remove deletes a found entry under the exclusive lock and runs OnTerminate exactly once on it outside the lock, that unknown ids are errors, that Add stores only under an id whose lookup failed, and that OnTerminate tells every remaining subscriber. The identifier under which Add stores is behind a failed lookup of that very identifier (D23, fixed); no blocking channel operation under the service lock (C12.locks, shared). The error of Activate reaches the caller of Add and the object is installed only where it is nil (C16.activation). A client-side object's handler is removed only by clientService.Remove, which looks the entry up and deletes it in one exclusive critical section before the handler is removed (C16.client-remove).",
   "Behaviour under concurrent add/remove/terminate histories is not decided. D18 (Add on a session-less service created no mailbox) was first a known finding and is fixed in /repo (d8d70b8).",
   "DESIGN.md §3 C16")
 
@@ -76,14 +76,14 @@ claim("C07",
 
 claim("C08",
   "SSA error-flow over the computed decoder set + ownership of the reader (closed list of consumers) + ReadN completeness by guarded reachability",
-  "Decides (a) ReadN returns nil only when length bytes arrived, accumulates exactly what Read returned, and every ReadN call passes the length of the buffer it fills; (b) for every decoder call inside the decoder set (computed by reader-argument flow from ReadN) the error is used and every path on which it may be non-nil returns a non-nil error derived from it; (c) readers are consumed only through the repository's decoders (no type-asserted fast paths, io.Copy/LimitReader/bufio). Together: a strict prefix makes some ReadN fall short and that shortfall reaches the caller. (d) decoding steps outside the decoder set — stub methods, proxies, handlers that build a reader over bytes they were given, functions handed a reader that have no error result — look at the error of every step (C08.roots); a wrapper built around a handed-in reader keeps the function inside the decoder set.",
+  "Decides (a) ReadN returns nil only when length bytes arrived, accumulates exactly what Read returned, and every ReadN call passes the length of the buffer it fills; (b) for every decoder call inside the decoder set (computed by reader-argument flow from ReadN) the error is used and every path on which it may be non-nil returns a non-nil error derived from it; (c) readers are consumed only through the repository's decoders (no type-asserted fast paths, io.Copy/LimitReader/bufio). Together: a strict prefix makes some ReadN fall short and that shortfall reaches the caller. (d) decoding steps outside the decoder set — stub methods, proxies, handlers that build a reader over bytes they were given, functions handed a reader that have no error result — look at the error of every step (C08.roots); a wrapper built around a handed-in reader keeps the function inside the decoder set. The reflection encoder and decoder branch on the same reflect kinds (C08.kind-sets: the decoder's switch skips an unknown kind without consuming and without an error); ReadN does not read again after an error.",
   "Exact consumption of valid encodings is taken from the shape rules of C01–C03; io.Reader contract trusted.",
   "DESIGN.md §3 C08")
 
 
 claim("C01",
   "wire-shape extraction over SSA and comparison with the documentation + guarded reachability + ownership of the stream",
-  "Decides the layout and refusal clauses from the source: shape(Header.Write) = shape(Header.Read) = struct header_t of the documentation (order, widths, 28 bytes), magic big-endian and every primitive little-endian with the width of its Go type (derived from the primitive bodies); nil from Header.Read only across valid magic/version/type; payload allocation and read only behind a validated header and Size <= MaxPayloadSize; exactly two exact reads on the stream, payload always assigned; ReadN/WriteN retry loops complete and accept data arriving with EOF; one buffered write per message. Nobody but ReadN pulls header or payload off the stream (C08.readn-calls, shared); a length compared with a limit through a local variable or a parameter is followed to the limit it names.",
+  "Decides the layout and refusal clauses from the source: shape(Header.Write) = shape(Header.Read) = struct header_t of the documentation (order, widths, 28 bytes), magic big-endian and every primitive little-endian with the width of its Go type (derived from the primitive bodies); nil from Header.Read only across valid magic/version/type; payload allocation and read only behind a validated header and Size <= MaxPayloadSize; exactly two exact reads on the stream, payload always assigned; ReadN/WriteN retry loops complete and accept data arriving with EOF; one buffered write per message. Nobody but ReadN pulls header or payload off the stream (C08.readn-calls, shared); a length compared with a limit through a local variable or a parameter is followed to the limit it names. ReadN/WriteN reach the next Read/Write only across err == nil.",
   "Value-level round trip for all field values, lengths and fragmentations is not decided; encoding/binary trusted.",
   "DESIGN.md §3 C01")
 
@@ -107,13 +107,13 @@ claim("C09",
 
 claim("C18",
   "table agreement between IDL printers and IDL grammar (AST constants) + component-registration and assertion checks over SSA",
-  "Decides that every IDL type name printed is parsed back by the same constructor, that composite and line-level tokens printed are atoms of the parser, that the uid is read back as printed into a uint32, that composite types register all their components, and that IDL node builders assert unchecked only to terminals. The IDL parser's entry points use no package-level variable that changes after initialisation (C18.stateless); no address of a loop variable shared by all iterations is kept beyond its iteration (C18.loop-variables). A type reference hands a question on to the type it designates only while marked as being visited and refuses to resolve while marked (C18.recursion; D24, fixed). A declaration parsed is registered in the scope on every successful path of its parser, not on one branch of several.",
+  "Decides that every IDL type name printed is parsed back by the same constructor, that composite and line-level tokens printed are atoms of the parser, that the uid is read back as printed into a uint32, that composite types register all their components, and that IDL node builders assert unchecked only to terminals. The IDL parser's entry points use no package-level variable that changes after initialisation (C18.stateless); no address of a loop variable shared by all iterations is kept beyond its iteration (C18.loop-variables). A type reference hands a question on to the type it designates only while marked as being visited and refuses to resolve while marked (C18.recursion; D24, fixed). A declaration parsed is registered in the scope on every successful path of its parser, not on one branch of several. Declared type names are compared as stored; every non-atom position of a composite type production is held by the recursive type parser.",
   "Identity on all meta-objects and parser totality on arbitrary text are not decided. Declared names (struct, field, action) are printed as stored. D14 (void printed as 'nothing') was repaired in /repo.",
   "DESIGN.md §3 C18")
 
 claim("C20",
   "def-use / must-pass rules on reflect values + guarded reachability on kind tests (SSA)",
-  "Decides that fresh reflect values are populated by convertFrom before being stored, per loop iteration, key and value from the same source entry; that every scalar setter is behind a same-family kind test and stores the source's own accessor value (AsInt64 exact); that composite converters touch the destination only after testing the source kind; that slices are converted index by index over the whole source and struct fields paired by name; and that element failures propagate.",
+  "Decides that fresh reflect values are populated by convertFrom before being stored, per loop iteration, key and value from the same source entry; that every scalar setter is behind a same-family kind test and stores the source's own accessor value (AsInt64 exact); that composite converters touch the destination only after testing the source kind; that slices are converted index by index over the whole source and struct fields paired by name; and that element failures propagate. The integer extraction helper refuses by kind only: no refusal once Value.Int / Value.Uint was read.",
   "Value equality for all inputs and widening/narrowing semantics are not decided; reflect trusted.",
   "DESIGN.md §3 C20")
 
@@ -124,6 +124,6 @@ for pid in ["C01","C02","C03","C04","C06","C07","C08","C09","C10","C11","C12","C
 
 claim("C05",
   "emitted-operation extraction over the code generator's syntax tree (jen call chains, string fragments, Type.Marshal/Unmarshal calls, loops over Members/Params) and dual comparison of the write and read sides + per-iteration completeness on SSA",
-  "Decides, on the generator itself (meta/signature, meta/stub, meta/idl), the structural clauses without which the generated halves cannot be inverses for any IDL: every scalar constructor names the Write and Read primitive of its own letter; for list, map, tuple, struct and enum the operations emitted by Marshal are the dual of those emitted by Unmarshal (same primitives, same members in the same order, same Go expression on both sides, generated loops in the same places behind a 32-bit count, struct read/write functions declared under the names the call sites use and covering every member); every emitter that encodes or decodes a parameter list handles each declared parameter exactly once per iteration with the parameter's own type (stub method, signal and property bodies, proxy bodies); the stub encodes the result after decoding the parameters. The reflection codec the generated proxy uses is held to the composite/kind rules of C03 (fresh storage per decoded element, every kind through its own primitive). Inside an emitted loop the element handed to the member's emitter is not named through the container parameter and the emitted index (nested containers re-declare it).",
+  "Decides, on the generator itself (meta/signature, meta/stub, meta/idl), the structural clauses without which the generated halves cannot be inverses for any IDL: every scalar constructor names the Write and Read primitive of its own letter; for list, map, tuple, struct and enum the operations emitted by Marshal are the dual of those emitted by Unmarshal (same primitives, same members in the same order, same Go expression on both sides, generated loops in the same places behind a 32-bit count, struct read/write functions declared under the names the call sites use and covering every member); every emitter that encodes or decodes a parameter list handles each declared parameter exactly once per iteration with the parameter's own type (stub method, signal and property bodies, proxy bodies); the stub encodes the result after decoding the parameters. The reflection codec the generated proxy uses is held to the composite/kind rules of C03 (fresh storage per decoded element, every kind through its own primitive). Inside an emitted loop the element handed to the member's emitter is not named through the container parameter and the emitted index (nested containers re-declare it). Two clauses of 'the output compiles' that are decidable on the generator are also decided: a generator mode flag read by an emitter is lowered again before the declarations shared by both halves are rendered (C05.mode-flag), and method, signal and property names of one interface are made unique within one set (C05.name-space).",
   "NOT decided: that the generated text compiles for every IDL (identifier hygiene, imports, name collisions, well-formedness of the string fragments), that a signal's tuple type on the subscriber side is the tuple of the emitter's parameters, equality of values end to end. The generator is never run; only its source is analysed, so a check of the generated output for an unseen IDL is out of reach of this technique.",
   "DESIGN.md §3 C05")
